@@ -238,6 +238,10 @@ class C17(EngineCheck):
                 # process tag next to the thread tag (either order): the node needs the process pool only
                 S.node_index(p)[target]['both_tags'] = 'tp' if k % 8 == 1 else 'pt'
             progs.append({'program': p, 'variant': c['variant']})
+        # one generated module per program (named after its digest): identical programs would share a module name and
+        # the second compilation would orphan the classes of the first (PicklingError in the worker) - keep one
+        seen = set()
+        progs = [pc for pc in progs if not (C.module_name(pc['program']) in seen or seen.add(C.module_name(pc['program'])))]
         d = tempfile.mkdtemp(prefix='vk_c17b_')
         checked = 0
         try:
